@@ -124,13 +124,15 @@ func (a *AliasMangler) Unmangle(sf reflect.StructField, fvs []FieldValueTuple) (
 		return reflect.Value{}, fmt.Errorf("expected 1 or 2 tuples, got %d", len(fvs))
 	}
 
-	if !fvs[0].Value.IsNil() && !fvs[1].Value.IsNil() {
+	// IsZero rather than IsNil: fields of structs that are slice or array
+	// elements are not pointerified, and IsNil panics on non-nilable kinds.
+	if !fvs[0].Value.IsZero() && !fvs[1].Value.IsZero() {
 		return reflect.Value{}, fmt.Errorf("both alias and original set for field %q", sf.Name)
 	}
 
 	// return the first one that isn't nil
 	for _, fv := range fvs {
-		if !fv.Value.IsNil() {
+		if !fv.Value.IsZero() {
 			return fv.Value, nil
 		}
 	}
